@@ -115,6 +115,15 @@ def run(ctx):
             body = render([], cfg, data)
             cases.append(("bad-config-%d#%d" % (k, len(cases)),
                           body[:1 + len(decmatrix.audio_defs())] + ["init " + decmatrix.hx(json.dumps(c2))] + body[1 + len(decmatrix.audio_defs()):]))
+        # results whose words are spelled with bytes that need care when they are formatted (JSON at every level,
+        # mid-utterance and at the end, hypothesis string, segment iterator): quotes, backslashes, control and
+        # non-ASCII bytes
+        from checks import c14
+        for k, name in enumerate(sorted(c14.HOSTILE)):
+            _, hs = c14.hostile_case(random.Random(k), k, name)
+            i = hs.index("end")
+            hs = hs[:i] + ["json mid 0 2", "result mid"] + hs[i:]
+            cases.append(("hostile-word-%s#%d" % (name, len(cases)), ["mark __case__"] + hs))
     by_id = dict(cases)
     # one process per tour, leak detection on: "after the last reference is released every allocation has been freed"
     chunks, crashes = decmatrix.run_cases(ctx, drv, cases, per_proc=1, split_on_mark="__case__", leaks=True, timeout=300)
